@@ -21,6 +21,12 @@ RULE = ('states = distinct canonical shapes reachable by insert/delete/pop-min/c
         'protocols 0..5, copy.copy, copy.deepcopy, cross-implementation load (C pickle into Py '
         'classes and Py pickle into C classes), byte equality of C and Py pickles of the same '
         'history, and every alphabet op applied to a reloaded copy compared with the model; '
+        'database interchange: BFS over committed transactions executed in a C and in a pure-Python '
+        'MiniDB world in lock-step - after every commit the current records of both databases must '
+        'be equal (state tuples with references normalised), each implementation must read the '
+        'other\'s database, continue it with further commits and hand it back; int/float subclass '
+        'instances (bool, int subclass, float subclass) as keys / values through every writing entry '
+        'point must be stored and pickled as plain numbers, byte-identically in both; '
         'evaluations = round trips + usability ops; distinct_nontrivial = states')
 TRUSTED = ['CPython 3.12 pickle/copy', 'persistent 6.8', 'vt harness (explorer, canonical dump, walk)']
 ASSUMPTIONS = ['key universes of <= 6 keys, node sizes {2,3}', 'pickles are taken outside a database '
@@ -31,12 +37,16 @@ PROTOS = (0, 1, 2, 3, 4, 5)
 
 def bounds(tier):
     return ('quick: cover families deep (trees N=5 @2/2 and @3/2, None/extreme universes N=4), other '
-            'families N=4 (C) / N=3 (Py), leaf kinds N=4; thorough: all 22 deep N=6 (C) / N=5 (Py)')
+            'families N=4 (C) / N=3 (Py), leaf kinds N=4; database interchange (C and Python worlds in '
+            'lock-step, records compared, cross-read, cross-write) N=4 @2/2 and 3/2 for all families; '
+            'int/float subclass inputs through every entry point, all families; thorough: all 22 deep '
+            'N=6 (C) / N=5 (Py), database interchange N=5')
 
 
 def required_guards(tier):
     return ['height>=3', 'single_child_interior', 'roundtrips', 'usable_ops', 'byte_compared',
-            'cross_loaded', 'embedded_form', 'empty_form']
+            'cross_loaded', 'embedded_form', 'empty_form', 'db_commits', 'db_records_compared',
+            'db_cross_reads', 'db_cross_writes', 'subclass_cases', 'subclass_pickles_compared']
 
 
 def configs(tier):
@@ -75,6 +85,20 @@ def jobs(tier):
         js.append({'fn': 'job', 'weight': w,
                    'group': '%s/%s' % (impl, 'tree' if kind in F.TREE_KINDS else 'leaf'),
                    'args': dict(fam=fam, kind=kind, impl=impl, sizes=sizes, n=n, variant=var)})
+    deep = F.COVER if tier == 'quick' else F.FAMILIES
+    for fam in F.FAMILIES:
+        for kind in F.KINDS:
+            tree = kind in F.TREE_KINDS
+            if fam in deep:
+                nn = (4 if tier == 'quick' else 5) if tree else 4
+            else:
+                nn = 4 if tree else 3
+            js.append({'fn': 'db_job', 'weight': 30 if fam in deep else 5, 'group': 'db/%s' % kind,
+                       'args': dict(fam=fam, kind=kind, sizes=(2, 2) if tree else None, n=nn)})
+            if tree and fam in deep:
+                js.append({'fn': 'db_job', 'weight': 10, 'group': 'db/%s' % kind,
+                           'args': dict(fam=fam, kind=kind, sizes=(3, 2), n=4 if tier == 'quick' else 5)})
+        js.append({'fn': 'subclass_job', 'weight': 1, 'group': 'subclass', 'args': dict(fam=fam)})
     return js
 
 
@@ -250,9 +274,297 @@ def job(fam, kind, impl, sizes, n, variant):
     return S.result(ex, extra_eval=n_eval)
 
 
+# --------------------------------------------------------------------------
+# database interchange: the same history of committed transactions in a C and in a pure-Python
+# world; records must be equal, each implementation must read and continue the other's database
+
+def _norm_record(data):
+    """State of a stored record with persistent references replaced by ('ref', oid, class name
+    without the Py suffix)."""
+    from .. import minidb as M
+
+    def pl(ref):
+        oid, cls = ref
+        n = cls.__name__
+        return ('ref', M.u64(oid), n[:-2] if n.endswith('Py') else n)
+    return M._unpickle(data, pl)
+
+
+def db_job(fam, kind, sizes, n):
+    import collections
+    from .. import minidb as M
+    from ..report import Reporter
+    from ..models import model_for
+    from .c04 import World, layout, lone_inline
+    cc = O.Ctx(fam, kind, 'c')
+    cp = O.Ctx(fam, kind, 'py')
+    keys, grid = F.universe(fam, n, 'centred')
+    vals = F.values(fam)
+    if sizes:
+        F.set_sizes(fam, *sizes)
+    tree = cc.is_tree
+    alpha = S.slim_alphabet(cc, keys, vals)
+    if cc.is_map:
+        alpha.append(('update', 'pairs', tuple((k, vals[(i + 1) % 2]) for i, k in enumerate(keys))))
+        extra = [('setitem', k, vals[(i + 1) % 2]) for i, k in enumerate(keys)]
+    else:
+        alpha.append(('update', 'list', tuple(keys)))
+        extra = []
+    rep = Reporter('C06')
+    guards = collections.Counter()
+    base = dict(db=True, fam=fam, kind=kind, sizes=sizes, n=n)
+
+    def worlds(hist):
+        wc, wp = World(cc), World(cp)
+        for ops in hist:
+            wc.commit(wc.run(ops))
+            wp.commit(wp.run(ops))
+        return wc, wp
+
+    w0c, w0p = worlds(())
+    k0 = (C.dump(w0c.t, tree), layout(w0c.t, tree))
+    seen = {k0}
+    frontier = collections.deque([()])
+    states = 1
+    transitions = compared = 0
+    sample = None
+    while frontier and not rep.full:
+        hist = frontier.popleft()
+        for op, expand in [(o, True) for o in alpha] + [(o, False) for o in extra]:
+            if rep.full:
+                break
+            slot_case = ('C06db', fam, kind, sizes, hist, op)
+            from .. import slot
+            slot.set(slot_case)
+            wc, wp = worlds(hist)
+            mc = wc.run((op,))
+            wp.run((op,))
+            lone = lone_inline(wc.t, tree) or lone_inline(wp.t, tree)
+            transitions += 1
+            sig = dict(db=True, fam=fam, kind=kind, op=op[0], lone_inline=lone)
+            case = dict(base, history=[list(x) for x in hist], op=op)
+            try:
+                sc = wc.commit(mc)
+                sp = wp.commit(mc)
+            except Exception as e:      # noqa
+                rep.add(dict(sig, site='db-commit', cls='exc-' + type(e).__name__), case, repr(e))
+                continue
+            guards['db_commits'] += 1
+            want = mc.contents()
+            # 1. the two databases hold the same current records (an implementation may rewrite a
+            #    record whose state did not change - e.g. Python marks a node changed when a value
+            #    is replaced by an equal one, C does not - so the sets *written* are not compared)
+            oc, op_ = sorted(wc.storage.data), sorted(wp.storage.data)
+            if oc != op_:
+                rep.add(dict(sig, site='db-records', cls='oids'), case,
+                        'C database has records %r, Python %r' % ([M.u64(o) for o in oc],
+                                                                  [M.u64(o) for o in op_]))
+            else:
+                for oid in set(sc) | set(sp):
+                    rc = wc.storage.load(oid)
+                    rp = wp.storage.load(oid)
+                    nc, np_ = _norm_record(rc[2]), _norm_record(rp[2])
+                    compared += 1
+                    guards['db_records_compared'] += 1
+                    if rc[1].__name__ + 'Py' != rp[1].__name__ or not C._same(nc, np_):
+                        rep.add(dict(sig, site='db-records', cls='state'), case,
+                                'record %d: C %s %r, Python %s %r' % (M.u64(oid), rc[1].__name__, nc,
+                                                                      rp[1].__name__, np_))
+                        break
+            # 2. each reads the other's database, and 3. continues it
+            for wname, w, to_py, rctx in (('c-written', wc, True, cp), ('py-written', wp, False, cc)):
+                try:
+                    conn, r = M.open_tree(w.storage, w.t._p_oid, clsmap=M.impl_map(to_py))
+                    got = O.contents(rctx, r)
+                    guards['db_cross_reads'] += 1
+                    if got != want:
+                        rep.add(dict(sig, site='db-cross-read', cls='contents', written=wname), case,
+                                '%s database read by the other implementation: %r, expected %r'
+                                % (wname, got, want))
+                        continue
+                    if tree:
+                        r._check()
+                    # continue the database with the reader's implementation
+                    m2 = mc.copy()
+                    more = ('setitem', grid[0], vals[0]) if rctx.is_map else ('add', grid[0])
+                    more2 = (('delitem', want[0][0]) if rctx.is_map else ('remove', want[0])) if want else None
+                    for o2 in (more, more2):
+                        if o2 is None:
+                            continue
+                        O.apply_sut(rctx, r, o2)
+                        O.apply_model(m2, o2)
+                    conn.commit()
+                    guards['db_cross_writes'] += 1
+                    # ... and read it back with the writer's implementation
+                    conn2, r2 = M.open_tree(w.storage, w.t._p_oid, clsmap=M.impl_map(not to_py))
+                    back = O.contents(cc if to_py else cp, r2)
+                    if back != m2.contents():
+                        rep.add(dict(sig, site='db-cross-write', cls='contents', written=wname), case,
+                                'after the other implementation continued the %s database: %r, expected %r'
+                                % (wname, back, m2.contents()))
+                    elif tree:
+                        r2._check()
+                except Exception as e:      # noqa
+                    rep.add(dict(sig, site='db-cross', cls='exc-' + type(e).__name__, written=wname), case,
+                            '%s database handled by the other implementation: %r' % (wname, e))
+            if not expand:
+                continue
+            # BFS bookkeeping on the C world's committed shape (the writer objects, before step 3
+            # touched the storages: wc.t is unaffected by other connections until it begins anew)
+            try:
+                nk = (C.dump(wc.t, tree), layout(wc.t, tree))
+            except Exception as e:      # noqa
+                continue
+            if nk not in seen:
+                seen.add(nk)
+                states += 1
+                frontier.append(hist + ((op,),))
+                if sample is None and len(hist) >= 2:
+                    sample = dict(base, history=[list(x) for x in hist + ((op,),)])
+    return dict(states=states, transitions=transitions, compared=compared, evaluations=transitions,
+                distinct=states, exhaustive=not rep.full, guards=dict(guards), outcomes={},
+                violations=rep.all(), sample=sample)
+
+
+# --------------------------------------------------------------------------
+# int / float SUBCLASS instances (bool, IntEnum-like, float subclass) as keys and values: both
+# implementations accept them; what is stored and pickled must be the plain number
+
+class IntSub(int):
+    pass
+
+
+class FloatSub(float):
+    pass
+
+
+def subclass_job(fam):
+    import collections
+    from ..report import Reporter
+    rep = Reporter('C06')
+    guards = collections.Counter()
+    kt, vt = fam[0], fam[1]
+    evaluations = 0
+    sample = None
+    F.reset_sizes(fam)
+    for kind in F.KINDS:
+        ismap = F.is_map(kind)
+        keyforms = [('plain', lambda k: k)]
+        if kt in 'ILUQ':
+            keyforms += [('bool', lambda k: bool(k) if k in (0, 1) else k), ('intsub', IntSub)]
+        valforms = [('plain', lambda v: v)]
+        if ismap and vt in 'ILUQ':
+            valforms += [('bool', lambda v: bool(v) if v in (0, 1) else v), ('intsub', IntSub)]
+        if ismap and vt == 'F':
+            valforms += [('bool', lambda v: bool(v) if v in (0, 1) else v), ('intsub', lambda v: IntSub(int(v))),
+                         ('floatsub', FloatSub)]
+        if kt in 'ILUQ':
+            ks = [0, 1, 5]
+        elif kt == 'O':
+            ks = [0, 1, 5]
+        else:
+            ks = [b'aa', b'ab', b'zz']
+        if vt in 'ILUQ':
+            vs = [1, 0, 7]
+        elif vt == 'F':
+            vs = [1.0, 0.0, 2.5]
+        elif vt == 'O':
+            vs = ['a', 'b', 'c']
+        else:
+            vs = [b'aaaaaa', b'bbbbbb', b'cccccc']
+        for kname, kf in keyforms:
+            for vname, vf in valforms:
+                if kname == 'plain' and vname == 'plain':
+                    continue
+                for entry in (('setitem', 'update', 'ctor', 'setdefault') if ismap else ('add', 'update', 'ctor', 'ior')):
+                    objs = {}
+                    for impl in F.IMPLS:
+                        cls = F.cls(fam, kind, impl)
+                        try:
+                            if ismap:
+                                items = [(kf(k), vf(v)) for k, v in zip(ks, vs)]
+                                if entry == 'ctor':
+                                    t = cls(items)
+                                else:
+                                    t = cls()
+                                    if entry == 'update':
+                                        t.update(items)
+                                    else:
+                                        for k, v in items:
+                                            if entry == 'setitem':
+                                                t[k] = v
+                                            else:
+                                                t.setdefault(k, v)
+                            else:
+                                items = [kf(k) for k in ks]
+                                if entry == 'ctor':
+                                    t = cls(items)
+                                else:
+                                    t = cls()
+                                    if entry == 'update':
+                                        t.update(items)
+                                    elif entry == 'ior':
+                                        t |= items
+                                    else:
+                                        for k in items:
+                                            t.add(k)
+                            objs[impl] = t
+                        except Exception as e:      # noqa
+                            objs[impl] = e
+                    evaluations += 1
+                    guards['subclass_cases'] += 1
+                    sig = dict(sub=True, fam=fam, kind=kind, keyform=kname, valform=vname, entry=entry)
+                    case = dict(sub=True, fam=fam, kind=kind, keyform=kname, valform=vname, entry=entry)
+                    if sample is None:
+                        sample = case
+                    tc, tp = objs['c'], objs['py']
+                    if isinstance(tc, Exception) or isinstance(tp, Exception):
+                        if type(tc) is not type(tp):
+                            rep.add(dict(sig, site='subclass', cls='accept-differs'), case,
+                                    'C: %r, Python: %r' % (tc, tp))
+                        continue
+                    for impl, t in objs.items():
+                        flat = t.__getstate__()[0] if not F.is_tree(kind) else None
+                        if F.is_tree(kind):
+                            st = t.__getstate__()
+                            flat = st[0][0][0] if st and len(st) == 1 else None
+                        if flat is None:
+                            continue
+                        for j, x in enumerate(flat):
+                            iskey = (j % 2 == 0) if ismap else True
+                            tp_ = kt if iskey else vt
+                            want = {'I': int, 'L': int, 'U': int, 'Q': int, 'F': float}.get(tp_)
+                            if want is not None and type(x) is not want:
+                                rep.add(dict(sig, site='subclass', cls='stored-type', impl=impl,
+                                             role='key' if iskey else 'value'), case,
+                                        '%s state holds %r (%s), expected a plain %s'
+                                        % (impl, x, type(x).__name__, want.__name__))
+                                break
+                    for proto in (2, 5):
+                        dc, dp = pickle.dumps(tc, proto), pickle.dumps(tp, proto)
+                        guards['subclass_pickles_compared'] += 1
+                        if dc != dp:
+                            rep.add(dict(sig, site='subclass', cls='pickle-bytes'), case,
+                                    'protocol %d: C %r, Python %r' % (proto, dc, dp))
+                            break
+    return dict(states=evaluations, transitions=evaluations, compared=evaluations,
+                evaluations=evaluations, distinct=evaluations, exhaustive=not rep.full,
+                guards=dict(guards), outcomes={}, violations=rep.all(), sample=sample)
+
+
 def replay(case):
     """Re-run the whole monitor in the recorded state; report what it reports."""
     from ..explore import Explorer
+    if case.get('db'):
+        r = db_job(case['fam'], case['kind'], case.get('sizes') and tuple(case['sizes']), case['n'])
+        vs = [v for v in r['violations'] if v['case'].get('history') == case.get('history')
+              and list(v['case'].get('op')) == list(case.get('op'))]
+        return dict(violations=vs)
+    if case.get('sub'):
+        r = subclass_job(case['fam'])
+        vs = [v for v in r['violations'] if all(v['case'].get(k) == case.get(k)
+                                                for k in ('kind', 'keyform', 'valform', 'entry'))]
+        return dict(violations=vs)
     ctx, t, m = S.replay_state(case)
     keys, grid = F.universe(case['fam'], case['n'], case['variant'])
     alpha = S.slim_alphabet(ctx, keys, F.values(case['fam']))
